@@ -204,6 +204,24 @@ def lemma_xor_zero8(a):
     return implies(len(a) == 8, bx(rep(b'\x00', 8), a, 8) == a)
 
 
+def lemma_dbl_mod16(a):
+    """xor with R_128 < 2^8 commutes with dropping the bits above 2^128"""
+    return implies(a >= 0, ((a ^ 135) % (2 ** 128)) == ((a % (2 ** 128)) ^ 135))
+
+
+def lemma_dbl_mod8(a):
+    return implies(a >= 0, ((a ^ 27) % (2 ** 64)) == ((a % (2 ** 64)) ^ 27))
+
+
+def lemma_dbl_code16(x):
+    """dbl() written as `shift, xor, then truncate` (how Hash/CMAC._shift_bytes computes it)"""
+    return implies(len(x) == 16, dbl(x, 16) == ibe((((2 * be(x)) ^ 135) % (2 ** 128)) if x[0] >= 128 else ((2 * be(x)) % (2 ** 128)), 16))
+
+
+def lemma_dbl_code8(x):
+    return implies(len(x) == 8, dbl(x, 8) == ibe((((2 * be(x)) ^ 27) % (2 ** 64)) if x[0] >= 128 else ((2 * be(x)) % (2 ** 64)), 8))
+
+
 def rb(bs):
     """5.3: R_128 = 0^120 10000111, R_64 = 0^59 11011"""
     if bs == 16:
